@@ -698,16 +698,40 @@ def _inline_round(d, unit, self_name, counter, max_blocks, only, skip):
                             names.add(n["name"])
             tmp = "__ret_%s_%d" % (cf.name, k)
             loc = call.get("loc", [0, 0])
+            # `x = helper (...)` as a whole statement: the helper's result goes straight into x (no temporary), and when every
+            # return of the helper yields one and the same local of the helper, that local *is* x
+            drop_stmt = False
+            unify = None
+            if st["k"] == "asg" and st["op"] == "=" and st["l"]["k"] == "ref" and st["l"].get("decl") == "local":
+                rr = st["r"]
+                while rr is not None and rr["k"] == "cast":
+                    rr = rr["e"]
+                tci = (b.get("term") or {}).get("ci")
+                arg_names = set(m["name"] for a_ in call["args"] for m in _walk_all(a_) if m["k"] == "ref")
+                if rr is call and tci != i and st["l"]["name"] not in arg_names:
+                    tmp = st["l"]["name"]
+                    drop_stmt = True
+                    rets = []
+                    for cb in cd["blocks"]:
+                        for s_ in cb["stmts"]:
+                            if s_["k"] == "ret" and s_.get("e") is not None:
+                                e_ = s_["e"]
+                                while e_ is not None and e_["k"] == "cast":
+                                    e_ = e_["e"]
+                                rets.append(e_["name"] if e_ is not None and e_["k"] == "ref" and e_.get("decl") == "local" else None)
+                    if rets and all(r_ is not None and r_ == rets[0] for r_ in rets):
+                        unify = rets[0]
             base = max(blocks) + 1
             idmap = {cb["id"]: base + j for j, cb in enumerate(cd["blocks"])}
             cont_id = base + len(cd["blocks"])
             # continuation block: the rest of b
             ci = (b.get("term") or {}).get("ci")
-            cont = {"id": cont_id, "stmts": b["stmts"][i:], "succs": b["succs"]}
+            shift = i + (1 if drop_stmt else 0)
+            cont = {"id": cont_id, "stmts": b["stmts"][shift:], "succs": b["succs"]}
             if b.get("term"):
                 t2 = dict(b["term"])
                 if ci is not None and ci >= 0:
-                    t2["ci"] = ci - i
+                    t2["ci"] = ci - shift
                 cont["term"] = t2
             # parameter passing: a parameter the callee never modifies and that receives a plain variable of the caller is
             # replaced by that variable (the code then reads as before the helper was extracted); otherwise a renamed local
@@ -726,6 +750,7 @@ def _inline_round(d, unit, self_name, counter, max_blocks, only, skip):
                             assigned.add(tgt["name"])
             pre = []
             direct = {}
+            addr_of = {}
             for p_, a in zip(cd.get("params", []), call["args"]):
                 av = a
                 while av is not None and av["k"] == "cast" and av.get("ck") in ("NoOp", "LValueToRValue", "BitCast"):
@@ -733,6 +758,14 @@ def _inline_round(d, unit, self_name, counter, max_blocks, only, skip):
                 if av is not None and av["k"] == "ref" and av.get("decl") in ("local", "param") and p_["name"] not in assigned and not av.get("x"):
                     direct[p_["name"]] = (av["name"], av.get("decl"))
                     continue
+                # `&var` handed to an out-parameter the callee never reassigns: `*param` is `var` itself
+                if av is not None and av["k"] == "un" and av["op"] == "&" and p_["name"] not in assigned and not av.get("x"):
+                    tv = av["e"]
+                    while tv is not None and tv["k"] == "cast":
+                        tv = tv["e"]
+                    if tv is not None and tv["k"] == "ref" and tv.get("decl") in ("local", "param"):
+                        addr_of[p_["name"]] = tv
+                        continue
                 pre.append({"k": "asg", "op": "=", "loc": loc, "t": p_["t"], "inl": 1,
                             "l": {"k": "ref", "decl": "local", "name": p_["name"] + suffix, "t": p_["t"], "loc": loc}, "r": a})
             if direct:
@@ -742,6 +775,39 @@ def _inline_round(d, unit, self_name, counter, max_blocks, only, skip):
                             if n["k"] == "ref" and n.get("decl") == "param" and n["name"] in direct:
                                 n["name"], n["decl"] = direct[n["name"]]
                 names -= set(direct)
+            if addr_of:
+                def deref_subst(e):
+                    if isinstance(e, dict):
+                        for kk, v in list(e.items()):
+                            if isinstance(v, dict):
+                                if v.get("k") == "un" and v.get("op") == "*":
+                                    inner = v["e"]
+                                    while inner is not None and inner["k"] == "cast":
+                                        inner = inner["e"]
+                                    if inner is not None and inner["k"] == "ref" and inner.get("decl") == "param" and inner["name"] in addr_of:
+                                        r2 = dict(addr_of[inner["name"]])
+                                        r2["loc"] = v.get("loc", r2.get("loc"))
+                                        if v.get("x"):
+                                            r2["x"] = 1
+                                        e[kk] = r2
+                                        continue
+                                deref_subst(v)
+                            elif isinstance(v, list):
+                                for it in v:
+                                    deref_subst(it)
+                    elif isinstance(e, list):
+                        for it in e:
+                            deref_subst(it)
+                for cb in cd["blocks"]:
+                    deref_subst({"s": cb["stmts"]})
+                    # remaining bare uses of the parameter are the address itself
+                    for s_ in cb["stmts"]:
+                        for n in _walk_all(s_):
+                            if n["k"] == "ref" and n.get("decl") == "param" and n["name"] in addr_of:
+                                tv = addr_of[n["name"]]
+                                n.clear()
+                                n.update({"k": "un", "op": "&", "e": dict(tv), "loc": tv.get("loc"), "t": tv.get("t", 0)})
+                names -= set(addr_of)
             b["stmts"] = b["stmts"][:i] + pre
             b["succs"] = [{"to": idmap[cd["entry"]], "on": ""}]
             b.pop("term", None)
@@ -751,8 +817,17 @@ def _inline_round(d, unit, self_name, counter, max_blocks, only, skip):
                     s_["to"] = idmap[s_["to"]]
                 new_stmts = []
                 for s_ in cb["stmts"]:
-                    _rename_tree(s_, suffix, names)
+                    if unify is not None:
+                        for n in _walk_all(s_):
+                            if n["k"] == "ref" and n.get("decl") == "local" and n["name"] == unify:
+                                n["name"] = tmp
+                                n["unified"] = 1
+                            elif n["k"] == "decl" and n["name"] == unify:
+                                n["name"] = tmp
+                    _rename_tree(s_, suffix, names - ({unify} if unify else set()))
                     if s_["k"] == "ret":
+                        if unify is not None:
+                            continue
                         if s_.get("e") is not None:
                             new_stmts.append({"k": "asg", "op": "=", "loc": s_.get("loc", loc), "t": cd.get("ret", 0), "inl": 1,
                                               "l": {"k": "ref", "decl": "local", "name": tmp, "t": cd.get("ret", 0), "loc": s_.get("loc", loc)}, "r": s_["e"]})
@@ -842,10 +917,12 @@ class Unit:
         t = e.get("t") if e else None
         return self.types[t] if t is not None else None
 
-    def fn(self, name):
+    def fn(self, name, raw=False):
         f = self.functions.get(name)
         if f is None:
             raise AnalysisBroken("anchor function %s not found in %s" % (name, self.relpath))
+        if not raw and os.environ.get("PLINT_INLINE_ALL"):
+            return f.inlined()
         return f
 
     def roots(self, **kw):
